@@ -100,6 +100,27 @@ func ops() []opT {
 			r.Metadata().Labels().Set("fresh", "1")
 			return st.Update(ctx, r, state.WithUpdateOwner(cur.Metadata().Owner()), state.WithExpectedPhaseAny())
 		}},
+		// operations that must be rejected: a rejected operation changes neither the memory nor the disk
+		{"destroy a while a finalizer is pending (rejected)", rejected(func(ctx context.Context, st state.State) error {
+			return st.Destroy(ctx, hx.IntPtr("a"), state.WithDestroyOwner("owner1"))
+		})},
+		{"create a again (rejected)", rejected(func(ctx context.Context, st state.State) error {
+			return st.Create(ctx, conformance.NewIntResource(hx.NS, "a", 99), state.WithCreateOwner("owner1"))
+		})},
+		{"destroy a with the wrong owner (rejected)", rejected(func(ctx context.Context, st state.State) error {
+			return st.Destroy(ctx, hx.IntPtr("a"), state.WithDestroyOwner("somebody-else"))
+		})},
+	}
+}
+
+// rejected turns an operation that the store must refuse into a workload step: the step fails iff the operation
+// was accepted.
+func rejected(f func(ctx context.Context, st state.State) error) func(ctx context.Context, st state.State) error {
+	return func(ctx context.Context, st state.State) error {
+		if err := f(ctx, st); err == nil {
+			return fmt.Errorf("the operation was accepted")
+		}
+		return nil
 	}
 }
 
@@ -809,7 +830,7 @@ func build(tier string) []explore.Scenario {
 			out = append(out, firstUseScenario(a, b, fb))
 		}
 	}
-	hists := [][]int{{0, 1, 2, 3}, {0, 4, 2, 3}, {4, 0, 3, 0}, {0, 1, 4, 5}, {5, 0, 2, 4}, {0, 3, 0, 1}, {0, 7, 1, 7}, {0, 4, 6, 1}, {4, 0, 6, 4}}
+	hists := [][]int{{0, 1, 2, 3}, {0, 4, 2, 3}, {4, 0, 3, 0}, {0, 1, 4, 5}, {5, 0, 2, 4}, {0, 3, 0, 1}, {0, 7, 1, 7}, {0, 4, 6, 1}, {4, 0, 6, 4}, {0, 1, 8, 4}, {0, 9, 10, 1}, {4, 0, 1, 8}}
 	if tier == "thorough" {
 		hists = nil
 		var rec func(h []int)
@@ -821,13 +842,14 @@ func build(tier string) []explore.Scenario {
 			if len(h) == 4 {
 				return
 			}
-			for o := 0; o < 8; o++ {
+			for o := 0; o < 9; o++ {
 				if valid(append(append([]int{}, h...), o)) {
 					rec(append(h, o))
 				}
 			}
 		}
 		rec(nil)
+		hists = append(hists, []int{0, 9, 10, 1}, []int{0, 1, 9, 10}, []int{4, 0, 10, 9})
 	}
 	mnames := []string{"protobuf", "zstd(min=0)", "zstd(min=200)", "aes", "zstd(aes)", "aes(zstd(min=64))"}
 	for hi, h := range hists {
@@ -875,8 +897,12 @@ func valid(h []int) bool {
 				return false
 			}
 			b = true
-		case 7:
+		case 7, 9, 10:
 			if !a {
+				return false
+			}
+		case 8:
+			if !a || !aFin {
 				return false
 			}
 		case 6:
